@@ -104,14 +104,6 @@ def case(ctx, i):
     else:
         kinds = ["insert-member", "append-member", "remove-member", "change-member-type"]
     tname = None
-    # names of types from which the changed struct can be reached: a section matching one of those hides the sub-tree
-    # holding the change *legitimately*; "non matching" sections must match none of them
-    reaching = set()
-    for prog_ in (pr.p, pr.q):
-        for t in prog_.types:
-            nm = getattr(t, "name", None)
-            if nm and nm != sname and any(getattr(x, "name", None) == sname for x in prog_.reach(t)):
-                reaching.add(nm)
     if cls == "names-another-changed-struct":
         pr, why, tname = make_near_pair(ctx, rng, d, kinds)
     else:
@@ -123,6 +115,14 @@ def case(ctx, i):
     rec = pr.p.find_type(sname)
     if rec is None or rec.kind != "struct":
         return r.skip("not-a-struct")
+    # names of types from which the changed struct can be reached: a section matching one of those hides the sub-tree
+    # holding the change *legitimately*; "non matching" sections must match none of them
+    reaching = set()
+    for prog_ in (pr.p, pr.q):
+        for t in prog_.types:
+            nm = getattr(t, "name", None)
+            if nm and nm != sname and any(getattr(x, "name", None) == sname for x in prog_.reach(t)):
+                reaching.add(nm)
     lines = ["[suppress_type]"]
     if cls == "names-another-changed-struct":
         # a second struct T, which the changed struct S points to, changes too; the section names T only: S's own change
